@@ -34,9 +34,6 @@ AxisOrder == <<"gc", "aslr", "cwd", "env", "inv", "rep">>
 Offsets(k) == {0, k \div 2, k - 1}
 
 GcFlags  == {"none", "-Wgc", "-Wno-gc"}
-GcValues == {[flag |-> f, k |-> 0, j |-> 0] : f \in GcFlags}
-            \cup {[flag |-> f, k |-> k, j |-> j] : f \in {"none", "-Wgc"}, k \in Ks, j \in 0..1000}
-
 CollectorOn(g) == g.flag # "-Wno-gc"
 GcOk(g) == /\ g.flag \in GcFlags /\ g.k \in Ks \cup {0}
            /\ IF g.k = 0 THEN g.j = 0 ELSE g.j \in Offsets(g.k) /\ CollectorOn(g)
